@@ -42,7 +42,20 @@ func v3EnvSuffixes() []map[string]string {
 }
 
 func enumV3EnvProduct(r *ev.Run, P props, st *enumStats, every int) {
-	envs := allTok(3, 2)
+	ems := spec.At(3, 2)
+	total := 1
+	for _, m := range ems {
+		total *= len(m.Codes)
+	}
+	envAt := func(i int) map[string]string {
+		t := make(map[string]string, 24)
+		for k := len(ems) - 1; k >= 0; k-- {
+			n := len(ems[k].Codes)
+			t[ems[k].Name] = ems[k].Codes[i%n].Code
+			i /= n
+		}
+		return t
+	}
 	bts := []struct {
 		ver string
 		tok map[string]string
@@ -54,12 +67,13 @@ func enumV3EnvProduct(r *ev.Run, P props, st *enumStats, every int) {
 	var n int64
 	safeParallel(r, 2048, func(sh int) {
 		var ln int64
-		for i := sh; i < len(envs); i += 2048 {
+		for i := sh; i < total; i += 2048 {
 			if every > 1 && i%every != 0 {
 				continue
 			}
+			e := envAt(i)
 			for _, bt := range bts {
-				tok := merge(bt.tok, envs[i])
+				tok := merge(bt.tok, e)
 				c := &dcase{ver: 3, level: 2, tok: tok, verLabel: bt.ver}
 				c.s = canonicalWritten(3, 2, bt.ver, tok)
 				evalDecoded(r, P, st, c)
